@@ -217,23 +217,43 @@ Definition finite_list (s : xseq) : res (list elem) :=
 Definition push (s : xseq) (x : elem) : res xseq := do l <- finite_list s; Val (array (l ++ [x])).
 Definition rpush (s : xseq) (x : elem) : res xseq := do l <- finite_list s; Val (array (x :: l)).
 Definition insert (s : xseq) (i : Z) (x : elem) : res xseq :=
-  do l <- finite_list s; do k <- value_to_idx s i;
-  Val (array (firstn (N.to_nat k) l ++ x :: skipn (N.to_nat k) l)).
+  do n <- len s;
+  match n with None => Err "sequence is infinite" | Some _ =>
+  do k <- value_to_idx s i;            (* the index is resolved before any element is looked at *)
+  do l <- finite_list s;
+  Val (array (firstn (N.to_nat k) l ++ x :: skipn (N.to_nat k) l)) end.
+(* pop and set never look at the element they remove / replace (it may be an error that is thereby discarded): the
+   index is resolved first, then the elements before and after it are materialised *)
+Definition around (s : xseq) (k : N) : res (list elem * list elem) :=
+  do l <- len s;
+  match l with
+  | None => Err "sequence is infinite"
+  | Some n => do a <- iter_n s 0 (N.to_nat k); do b <- iter_n s (k + 1) (N.to_nat (n - k - 1)); Val (a, b)
+  end.
 Definition pop (s : xseq) (i : Z) : res xseq :=
-  do l <- finite_list s; do k <- value_to_idx s i;
-  Val (array (firstn (N.to_nat k) l ++ skipn (S (N.to_nat k)) l)).
+  do l <- len s;
+  match l with
+  | None => Err "sequence is infinite"
+  | Some _ => do k <- value_to_idx s i; do ab <- around s k; Val (array (fst ab ++ snd ab))
+  end.
 Definition set (s : xseq) (i : Z) (x : elem) : res xseq :=
-  do l <- finite_list s; do k <- value_to_idx s i;
-  Val (array (firstn (N.to_nat k) l ++ x :: skipn (S (N.to_nat k)) l)).
+  do l <- len s;
+  match l with
+  | None => Err "sequence is infinite"
+  | Some _ => do k <- value_to_idx s i; do ab <- around s k; Val (array (fst ab ++ x :: snd ab))
+  end.
 Definition swap (s : xseq) (i j : Z) : res xseq :=
-  do l <- finite_list s; do a <- value_to_idx s i; do b <- value_to_idx s j;
-  if a =? b then Val s else
+  do n <- len s;
+  match n with None => Err "sequence is infinite" | Some _ =>
+  do a <- value_to_idx s i; do b <- value_to_idx s j;
+  if a =? b then Val s else        (* the same position twice: the sequence itself, no element is looked at *)
+  do l <- finite_list s;
   let lo := N.to_nat (N.min a b) in let hi := N.to_nat (N.max a b) in
   match nth_error l hi, nth_error l lo with
   | Some xhi, Some xlo =>
       Val (array (firstn lo l ++ xhi :: skipn (S lo) (firstn hi l) ++ xlo :: skipn (S hi) l))
   | _, _ => Stuck "index out of bounds"
-  end.
+  end end.
 
 Definition smap (s : xseq) (f : efun) : xseq := SMap s f.
 Definition szip (ss : list xseq) : xseq := SZip ss.
